@@ -170,6 +170,7 @@ pub fn gen_world(rng: &mut Rng, p: &GenParams) -> WorldSpec {
         git: true,
         lock_host: None,
         default_ports: 0,
+        omit_max_retained: false,
     }
 }
 
